@@ -52,7 +52,7 @@ def main():
         elif nd is not None and nd != r["dim"]:
             why = "get_dla_dim() = %r but the reported name %s has dimension %d" % (r["dim"], r["algebra"], nd)
         if why:
-            key = signature(r["morphs"]) if (nd == r["dim"]) else None
+            key = signature(r["morphs"], r.get("attach_sites")) if (nd == r["dim"]) else None
             ck.fail(key, "n=%d generators %s: %s" % (n, g, why), {"n": n, "gens": g, "kind": kind, "dim": r["dim"], "algebra": r["algebra"], "closure_invariants": a, "why": why})
     ck.cov["evaluations"] = len(cases) + dist["synthetic_graph_lists"]
     ck.cov["distinct_nontrivial"] = len(nt)
